@@ -198,6 +198,13 @@ class ReduceEval(ObjEvaluator):
             return Arr(out)
         return ObjEvaluator._np_call(self, name, args, kwargs, node)
 
+    def apply_unary(self, fname, x, node):
+        if fname in ("abs", "absolute", "fabs"):
+            a_ = single_atom(scalar(x)) if isinstance(x, Rat) else None
+            if a_ is not None and a_ in self.norm_of:
+                return scalar(x)            # a length is its own absolute value
+        return ObjEvaluator.apply_unary(self, fname, x, node)
+
     def permute_rows(self, base, perm, node):
         """table[argsort(keys)] (or take(table, argsort(keys), axis=0)): the sorted table"""
         rows = [[scalar(x) for x in r] for r in base.data]
@@ -220,6 +227,12 @@ class ReduceEval(ObjEvaluator):
             return Rat.const(args[0].n)
         if name == "range" and any(const_int(a) is None for a in args):
             return ("symbolic-range", list(args))
+        if name == "enumerate" and args and isinstance(args[0], tuple) and len(args[0]) == 3 and args[0][0] == "table-rows":
+            start = args[1] if len(args) > 1 else kwargs.get("start", Rat.const(0))
+            return ("table-rows-enum", args[0][1], args[0][2], scalar(start))
+        if name == "enumerate" and args and isinstance(args[0], (SortedTable, TableView, MappedTable)):
+            start = args[1] if len(args) > 1 else kwargs.get("start", Rat.const(0))
+            return ("table-rows-enum", args[0], Rat.const(0), scalar(start))
         return ObjEvaluator.builtin(self, name, args, kwargs, node)
 
     # ---- subscripts: the sort, and rows of the sorted table
@@ -230,6 +243,14 @@ class ReduceEval(ObjEvaluator):
             first = self.eval(elts[0], env)
             if isinstance(first, Perm):
                 rest = elts[1:]
+                if len(rest) == 1 and isinstance(rest[0], ast.Slice) and rest[0].step is None and not (rest[0].lower is None and rest[0].upper is None):
+                    # table[order, lo:hi]: the sorted table, some of its columns
+                    tab_ = self.permute_rows(base, first, node)
+                    lo_ = const_int(self.eval(rest[0].lower, env)) if rest[0].lower is not None else 0
+                    hi_ = const_int(self.eval(rest[0].upper, env)) if rest[0].upper is not None else tab_.width
+                    if lo_ is None or hi_ is None:
+                        raise AnalysisError("reduce_cell: columns of the sorted table selected by a non-constant (line %d)" % node.lineno)
+                    return TableView(tab_, lo_, hi_)
                 if any(not (isinstance(e, ast.Slice) and e.lower is None and e.upper is None and e.step is None) for e in rest):
                     raise AnalysisError("reduce_cell: permuted table indexed with something else than full slices (line %d)" % node.lineno)
                 return self.permute_rows(base, first, node)
@@ -241,6 +262,10 @@ class ReduceEval(ObjEvaluator):
             if lo is None or hi is None:
                 raise AnalysisError("reduce_cell: columns of the sorted table selected by a non-constant (line %d)" % node.lineno)
             return TableView(base, lo, hi)
+        if isinstance(base, (TableView, MappedTable)) and len(elts) == 1 and isinstance(elts[0], ast.Slice) \
+                and elts[0].upper is None and elts[0].step is None:
+            lo = self.eval(elts[0].lower, env) if elts[0].lower is not None else Rat.const(0)
+            return ("table-rows", base, scalar(lo))
         if isinstance(base, (TableView, MappedTable)):
             r = self.eval(elts[0], env) if len(elts) in (1, 2) and not isinstance(elts[0], ast.Slice) else None
             if r is None:
@@ -318,6 +343,9 @@ class ReduceEval(ObjEvaluator):
     def compare(self, op, a, b, node):
         if isinstance(a, (Rat, int, float)) and isinstance(b, (Rat, int, float)) and not isinstance(a, bool) and not isinstance(b, bool):
             sa, sb = scalar(a), scalar(b)
+            from xfabsa import domain as _domain
+            if not (sa - sb).is_const() and _domain.sign(sa - sb) is not None:
+                return ObjEvaluator.compare(self, op, a, b, node)        # an argument check: decided by the input domain
             if not (sa - sb).is_const():
                 if self.phase == "enumerate":
                     return self.enumeration_filter(sa, sb, node)
@@ -389,16 +417,21 @@ class ReduceEval(ObjEvaluator):
                 return self.summarise_loop(st, env, start)
             if isinstance(it, tuple) and len(it) == 3 and it[0] == "table-rows":
                 return self.summarise_loop(st, env, it[2], rows_of=it[1])
+            if isinstance(it, tuple) and len(it) == 4 and it[0] == "table-rows-enum":
+                return self.summarise_loop(st, env, it[2], rows_of=it[1], count_from=it[3])
             if isinstance(it, SortedTable):
                 return self.summarise_loop(st, env, Rat.const(0), rows_of=it)
             self.hand_down(st.iter, it)
         return ObjEvaluator.exec_stmt(self, st, env)
 
-    def summarise_loop(self, st, env, start, rows_of=None):
+    def summarise_loop(self, st, env, start, rows_of=None, count_from=None):
         k = len(self.loops)
         idx = Rat.atom("idx%d*" % k)
         info = {"start": start, "index": idx, "node": st, "broke": False, "trace": None}
         item = idx if rows_of is None else Arr(rows_of.row("idx%d*" % k))     # the loop variable: an index, or the row itself
+        if count_from is not None:
+            # enumerate(rows[start:], count_from): the counter of the row number idx is idx - start + count_from
+            item = (idx - scalar(start) + scalar(count_from), item)
         # a non-hit iteration must leave no trace in the arrays that outlive the loop
         probe = {n_: (v.copy() if isinstance(v, Arr) else v) for n_, v in env.items()}
         before = {n_: v.key() for n_, v in probe.items() if isinstance(v, Arr)}
